@@ -154,3 +154,39 @@ Fixpoint run_logins_opt (lim : option rl_conf) (s : rl_state) (h : list att) : r
       let '(s1, o) := login_opt lim e s in
       let '(s2, os) := run_logins_opt lim s1 h' in (s2, o :: os)
   end.
+
+(** * Time resolution of the blocked test (round 4)
+
+    Instants and durations are nanoseconds throughout: [rl_check_locked]
+    returns [a.until.Sub(now)] as it is, and handleLogin tests that duration
+    itself ([left > 0]); only the Retry-After header is in whole seconds,
+    [strconv.Itoa(int(left.Seconds()))], the duration truncated toward zero
+    ([Z.quot]).  [login_blk] is handleLogin + newCookie with the blocked test
+    a parameter of the duration; the code's is [blk_code], and [login_blk
+    blk_code] is [login] (Proofs/RateLimit.v [login_blk_code]).  [blk_trunc]
+    is the test made on the truncated whole seconds, i.e. on the header
+    value. *)
+Definition second_ns : Z := 1000000000.
+
+(** The Retry-After header value for a time left. *)
+Definition retry_after_secs (lft : Z) : Z := Z.quot lft second_ns.
+
+Definition retry_after (o : login_out) : option Z :=
+  match o with L429 l => Some (retry_after_secs l) | _ => None end.
+
+Definition blk_code (lft : Z) : bool := 0 <? lft.
+Definition blk_trunc (lft : Z) : bool := 0 <? retry_after_secs lft.
+
+Definition login_blk (blk : Z -> bool) (c : rl_conf) (e : att) (s : rl_state) : rl_state * login_out :=
+  let '(s1, lft) := rl_check c (a_now e) s (a_addr e) in
+  if blk lft then (s1, L429 lft)
+  else if a_ok e then (rl_remove s1 (a_addr e), L200)
+  else (rl_inc c (a_now2 e) s1 (a_addr e), L403).
+
+Fixpoint run_logins_blk (blk : Z -> bool) (c : rl_conf) (s : rl_state) (h : list att) : rl_state * list login_out :=
+  match h with
+  | [] => (s, [])
+  | e :: h' =>
+      let '(s1, o) := login_blk blk c e s in
+      let '(s2, os) := run_logins_blk blk c s1 h' in (s2, o :: os)
+  end.
